@@ -32,6 +32,11 @@ fn optset(name: &str) -> Option<Opts> {
         "gfm" => Some(Opts::gfm()),
         "all" => Some(Opts::all_extensions()),
         "all+smart" => Some(Opts::all_extensions().with("smart", true).with("relaxed_autolinks", true)),
+        "all+ids" => {
+            let mut o = Opts::all_extensions();
+            o.header_ids = Some("h-".to_string());
+            Some(o)
+        }
         _ => None,
     }
 }
@@ -156,6 +161,8 @@ impl Family {
                 let (pre, suf) = (&self.close[..cut], &self.close[(cut + 1).min(self.close.len())..]);
                 spec_of(&[(pre, 1), (&self.frag, n), (suf, 1)])
             }
+            // a table n columns wide: header row, delimiter row, one body row
+            "rows" => spec_of(&[(&self.frag, n), (b"|\n", 1), (&self.close, n), (b"|\n", 1), (&self.frag, n), (b"|\n", 1)]),
             "paras" => {
                 let mut l = self.frag.clone();
                 l.extend_from_slice(b"\n\n");
@@ -439,7 +446,8 @@ pub fn run(cfg: &Cfg, rep: &mut Report) {
     if std::env::var("CVH_C06_ICOUNT_ONLY").is_ok() {
         let mut ifams = wrap_families(cfg.tier_thorough);
         ifams.extend(curated().into_iter().filter(|f| f.shape == "nest"));
-        run_icount(rep, &ifams, &["all"], 6000, 12000);
+        ifams.extend(icount_line_families());
+        run_icount(rep, &ifams, &["all+ids"], 2000, 4000);
         return;
     }
     k_stage(cfg, rep);
@@ -486,8 +494,9 @@ pub fn run(cfg: &Cfg, rep: &mut Report) {
     // instruction counts (valgrind) on the payload contexts and the curated nest shapes
     let mut ifams = wrap_families(cfg.tier_thorough);
     ifams.extend(curated().into_iter().filter(|f| f.shape == "nest"));
-    let iopts: &[&'static str] = if cfg.tier_thorough { &["default", "all"] } else { &["all"] };
-    run_icount(rep, &ifams, iopts, 6000, 12000);
+    ifams.extend(icount_line_families());
+    let iopts: &[&'static str] = if cfg.tier_thorough { &["default", "all+ids"] } else { &["all+ids"] };
+    run_icount(rep, &ifams, iopts, 2000, 4000);
     for (i, f) in cur.iter().take(3).enumerate() {
         let _ = i;
         rep.sample(format!("family {} frag {:?} close {:?}: n=3 -> {:?}", f.shape, show(&f.frag), show(&f.close), show(&expand_spec(&f.spec(3)).unwrap_or_default())));
@@ -502,9 +511,9 @@ fn wrap_families(thorough: bool) -> Vec<Family> {
     const CTX: &[(&str, &str)] = &[
         ("[a](", ")\n"), ("[a](<", ">)\n"), ("[a](u \"", "\")\n"), ("![a](", ")\n"), ("``` ", "\nx\n```\n"), ("[a]: ", "\n\n[a]\n"), ("[a]: u \"", "\"\n\n[a]\n"),
         ("[", "]: u\n"), ("[", "]\n"), ("<http://a/", ">\n"), ("`", "`\n"), ("> [!NOTE] ", "\n> x\n"), ("[[", "]]\n"), ("<a href=\"", "\">\n"), ("# ", "\n"),
-        ("| ", " |\n|-|\n"), ("[^", "]\n\n[^x]: y\n"), ("- [ ] ", "\n"), ("$", "$\n"), ("x\n: ", "\n"),
+        ("| ", " |\n|-|\n"), ("[^", "]\n\n[^x]: y\n"), ("- [ ] ", "\n"), ("$", "$\n"), ("x\n: ", "\n"), ("www.a.b/", "\n"), ("http://a.b/", " x\n"), ("a@b.c", "\n"),
     ];
-    let quick: &[&str] = &["\\!", "&amp;", "%20", "a", "(", "*", " ", "\u{e9}"];
+    let quick: &[&str] = &["\\!", "&amp;", "%20", "a", "(", ")", "*", " ", "\u{e9}", "&a"];
     let more: &[&str] = &["\\\\", "&#35;", "\"", "_", ")", "]", "[", "~", "|", "\\(", "a ", "A", "\u{130}"];
     let mut v = vec![];
     for (pre, suf) in CTX {
@@ -515,6 +524,19 @@ fn wrap_families(thorough: bool) -> Vec<Family> {
             v.push(Family { shape: "wrap", frag: pl.as_bytes().to_vec(), close: close.clone(), curated: true });
         }
     }
+    v
+}
+
+/// Whole-line shapes for the instruction counts: identical headings (anchor bookkeeping), reference
+/// definitions, list items, quotes, table rows, and tables n columns wide.
+fn icount_line_families() -> Vec<Family> {
+    let f = |shape: &'static str, frag: &str, close: &str| Family { shape, frag: frag.as_bytes().to_vec(), close: close.as_bytes().to_vec(), curated: true };
+    let mut v = vec![];
+    for l in ["# a", "## a b", "a\n===", "[a]: /u", "[a]: /u\n[a]", "- a", "1. a", "> a", "|a|b|", "<div>", "a  ", ": a", "[^a]: x", "- [ ] a", "a\n\n# a"] {
+        v.push(f("lines", l, ""));
+    }
+    v.push(f("rows", "|a", "|-"));
+    v.push(f("rows", "|a ", "|:-:"));
     v
 }
 
@@ -571,13 +593,13 @@ fn icount(case: &str, budget: Duration) -> Option<u64> {
     None
 }
 
-fn judge_icount(rep: &mut Report, optname: &str, fam: &Family, n1: usize, n2: usize, i0: u64, i1: Option<u64>, i2: Option<u64>) {
+fn judge_icount(rep: &mut Report, optname: &str, fam: &Family, n1: usize, n2: usize, i0: u64, i1: Option<u64>, i2: Option<u64>) -> Option<f64> {
     rep.s_evals += 2;
     let (a, b) = match (i1, i2) {
         (Some(a), Some(b)) => (a.saturating_sub(i0).max(1), b.saturating_sub(i0).max(1)),
         _ => {
             rep.count("icount-unmeasured(panic, crash or time-out: C01 / step-counter stage)");
-            return;
+            return None;
         }
     };
     let (s1, s2) = (expand_len(&fam.spec(n1)), expand_len(&fam.spec(n2)));
@@ -585,7 +607,7 @@ fn judge_icount(rep: &mut Report, optname: &str, fam: &Family, n1: usize, n2: us
     let bucket = if sl < 0.9 { "<0.9" } else if sl <= 1.05 { "0.9-1.05" } else if sl <= 1.25 { "1.05-1.25" } else if sl <= 1.6 { "1.25-1.6" } else { ">1.6" };
     rep.count(&format!("icount-slope-{}", bucket));
     rep.nontrivial(&("icount", fam.name(), optname));
-    if sl > ISLOPE_LIMIT && b > 20_000_000 {
+    if sl > ISLOPE_LIMIT && b > 5_000_000 {
         // a named mechanism class if there is one, else the family itself (instruction counts see every helper,
         // so the class of a finding must not be wider than the family that shows it)
         let named = family_sig(optname, fam, "steps-superlinear");
@@ -598,6 +620,7 @@ fn judge_icount(rep: &mut Report, optname: &str, fam: &Family, n1: usize, n2: us
             format!("instructions (above the empty-document run) {} -> {} for input {} -> {} bytes (slope {:.2} > {:.2}); family {} {:?}/{:?} options {}", a, b, s1, s2, sl, ISLOPE_LIMIT, fam.shape, show(&fam.frag), show(&fam.close), optname),
         );
     }
+    Some(sl)
 }
 
 fn expand_len(spec: &str) -> u64 {
@@ -608,10 +631,21 @@ fn expand_len(spec: &str) -> u64 {
 /// add a few percent), far below the 2.0 of a quadratic helper.
 pub const ISLOPE_LIMIT: f64 = 1.40;
 
+/// Two phases: every family at (n1, n2); the families whose slope is above 1.12 without failing are
+/// measured again at four times the size (a quadratic term that is still small next to the linear part at
+/// the first sizes dominates there).
 fn run_icount(rep: &mut Report, fams: &[Family], optnames: &[&'static str], n1: usize, n2: usize) {
+    let suspects = run_icount_pass(rep, fams, optnames, n1, n2);
+    if !suspects.is_empty() {
+        rep.add("icount-suspects-remeasured", suspects.len() as u64);
+        run_icount_pass(rep, &suspects, optnames, n1 * 4, n2 * 4);
+    }
+}
+
+fn run_icount_pass(rep: &mut Report, fams: &[Family], optnames: &[&'static str], n1: usize, n2: usize) -> Vec<Family> {
     if !valgrind_ok() {
         rep.notes.push("instruction-count stage skipped: valgrind not runnable".into());
-        return;
+        return vec![];
     }
     let t0 = std::time::Instant::now();
     let budget = Duration::from_secs(120);
@@ -642,12 +676,20 @@ fn run_icount(rep: &mut Report, fams: &[Family], optnames: &[&'static str], n1: 
         }
     });
     let results = results.into_inner().unwrap();
+    let mut suspects: Vec<Family> = vec![];
     for k in (0..cases.len()).step_by(2) {
         let (i, o, _) = cases[k];
         rep.count(&format!("icount-families-{}", fams[i].shape));
-        judge_icount(rep, o, &fams[i], n1, n2, *base.get(o).unwrap_or(&0), results[k], results[k + 1]);
+        if let Some(sl) = judge_icount(rep, o, &fams[i], n1, n2, *base.get(o).unwrap_or(&0), results[k], results[k + 1]) {
+            // not already reported (a slope above the limit on a count below the reporting threshold is a suspect too)
+            let reported = rep.s_fail.iter().any(|c| c.kind == "instructions-superlinear" && c.input.contains(&format!(" {} {} {} ", fams[i].shape, hex(&fams[i].frag), hex(&fams[i].close))));
+            if sl > 1.12 && !reported && !suspects.iter().any(|f: &Family| f.name() == fams[i].name()) {
+                suspects.push(fams[i].clone());
+            }
+        }
     }
     rep.notes.push(format!("instruction counts: {} valgrind runs (n = {} and {}) in {:.1}s; empty-document baselines {:?}", cases.len(), n1, n2, t0.elapsed().as_secs_f64(), base));
+    suspects
 }
 
 // ------------------------------------------------------------------ K
@@ -969,8 +1011,8 @@ pub fn replay(kind: &str, input: &str) -> Result<Option<String>, String> {
     let mut rep = Report::new("C06");
     match toks.first() {
         Some(&"pair") if toks.len() >= 7 => {
-            let optname: &'static str = OPTSETS.iter().chain(["all+smart"].iter()).find(|o| **o == toks[1]).copied().ok_or("bad option set")?;
-            let shape: &'static str = ["rep", "repraw", "headrep", "nest", "lines", "paras", "tree", "wrap"].iter().find(|s| **s == toks[2]).copied().ok_or("bad shape")?;
+            let optname: &'static str = OPTSETS.iter().chain(["all+smart", "all+ids"].iter()).find(|o| **o == toks[1]).copied().ok_or("bad option set")?;
+            let shape: &'static str = ["rep", "repraw", "headrep", "nest", "lines", "paras", "tree", "wrap", "rows"].iter().find(|s| **s == toks[2]).copied().ok_or("bad shape")?;
             let fam = Family { shape, frag: crate::util::unhex(toks[3]).ok_or("bad hex")?, close: crate::util::unhex(toks[4]).ok_or("bad hex")?, curated: true };
             let n1: usize = toks[5].parse().map_err(|_| "bad n")?;
             let n2: usize = toks[6].parse().map_err(|_| "bad n")?;
@@ -980,8 +1022,8 @@ pub fn replay(kind: &str, input: &str) -> Result<Option<String>, String> {
             judge_pair(&mut rep, optname, &fams[0], n1, n2, &res[0], &res[1]);
         }
         Some(&"ipair") if toks.len() >= 7 => {
-            let optname: &'static str = OPTSETS.iter().chain(["all+smart"].iter()).find(|o| **o == toks[1]).copied().ok_or("bad option set")?;
-            let shape: &'static str = ["rep", "repraw", "headrep", "nest", "lines", "paras", "tree", "wrap"].iter().find(|s| **s == toks[2]).copied().ok_or("bad shape")?;
+            let optname: &'static str = OPTSETS.iter().chain(["all+smart", "all+ids"].iter()).find(|o| **o == toks[1]).copied().ok_or("bad option set")?;
+            let shape: &'static str = ["rep", "repraw", "headrep", "nest", "lines", "paras", "tree", "wrap", "rows"].iter().find(|s| **s == toks[2]).copied().ok_or("bad shape")?;
             let fam = Family { shape, frag: crate::util::unhex(toks[3]).ok_or("bad hex")?, close: crate::util::unhex(toks[4]).ok_or("bad hex")?, curated: true };
             let n1: usize = toks[5].parse().map_err(|_| "bad n")?;
             let n2: usize = toks[6].parse().map_err(|_| "bad n")?;
